@@ -109,6 +109,22 @@ def run(run):
 
     run.guarded("R1", lambda: report("R1", "rewrite", sites(FILES_R1, is_self_rewrite), "R1 rewrite sites", 20))
     run.guarded("R2", lambda: report("R2", "assign", sites(FILES_R2, is_assign_ctor), "R2 constructed assignments", 2))
+    if run.tier == "thorough":
+        # exploration: the same obligations for EVERY function of the crate that rewrites an expression in place, builds a
+        # Def::Assign or substitutes a variable -- outside the anchored passes the input assumptions need not apply, so the
+        # outcome is reported as a note and never as a violation
+        listed = set(FILES_R1) | set(FILES_R2)
+        extra = [fn for fn in sites(("",), lambda n: is_self_rewrite(n) or is_assign_ctor(n) or is_subst(n)) if not any(F.file_of(fn).endswith(x) for x in listed)]
+        tally = {"holds": 0, "undecided": 0, "violated": 0}
+        odd = []
+        for fn in extra:
+            zi, err = interp_fn(fn)
+            for ob in zi.obligations:
+                v = ob.verdict()
+                tally[v[0]] += 1
+                if v[0] == "violated":
+                    odd.append("%s at %s: %s" % (fn["name"], F.loc(ob.site), v[1][:120]))
+        run.note("thorough exploration outside the anchored passes: %d functions, obligations: %s%s" % (len(extra), tally, ("; not equal under the interpreter's assumptions (to be read, not an alarm): " + " | ".join(odd[:5])) if odd else ""))
     FILES_R3 = ("pcode/subregister_substitution/mod.rs", "intermediate_representation/def.rs", "intermediate_representation/expression.rs")
     run.guarded("R3", lambda: report("R3", "subst", sites(FILES_R3, is_subst), "R3 substitution calls", 4))
     other = [F.loc(n) for fn in sites(("analysis/expression_propagation/mod.rs",), is_subst) for n in T.walk_fn(F, fn) if is_subst(n)]
